@@ -1,5 +1,5 @@
 """C13 — hash / HMAC / PRF constants and class descriptors against the standards (DESIGN §4 C13)."""
-from .. import build, report, tab, irf
+from .. import build, report, tab, irf, fold
 from ..build import AnalysisBroken
 
 
@@ -144,6 +144,79 @@ def tls10_prf_shape(chk):
                       key='%s br_tls10_prf' % R)
 
 
+def hmac_ct_window(chk):
+    """br_hmac_outCT (the HMAC that hides the data length): the loop bound km and the capture index kz are the same padding formula
+    applied to max_len and to len -- round_up(kr + x + po, bs) - kr, minus one for kz -- kl is 8 bytes below the end of the last
+    block, and po is the minimal Merkle-Damgard padding: 1 + 8 bytes, or 1 + 16 for the 128-byte-block functions."""
+    from .. import sym
+    R = 'hmac-ct-window'
+    src = 'src/mac/hmac_ct.c'
+    u = build.load_unit(src)
+    F = irf.Units({'u': u}).func('br_hmac_outCT')
+    if F is None:
+        raise AnalysisBroken('br_hmac_outCT vanished')
+    S = sym.Sym(F, leaf_vars=('kr', 'po', 'bs', 'len', 'max_len', 'count'))
+    kz, kl, km = S.of_var('kz'), S.of_var('kl'), S.of_var('km')
+    if None in (kz, kl, km):
+        raise AnalysisBroken('br_hmac_outCT: variables kz / kl / km not found in the debug information')
+    inst = 'br_hmac_outCT: km is kz + 1 with max_len in place of len'
+    if sym.subst(km, {'max_len': 'len'}) == sym.add_const(kz, 1) and km != sym.add_const(kz, 1):
+        chk.ok(R, inst, src, 'kz = %s' % sym.show(kz))
+    else:
+        chk.violation(R, inst, src, 'km = %s but kz = %s: the number of processed bytes and the index at which the state is captured follow different '
+                      'padding rules, so for some (len, max_len) the capture point lies outside the loop or at a wrong block' % (sym.show(km), sym.show(kz)),
+                      key='%s km-kz' % R)
+    inst = 'br_hmac_outCT: kl = kz - 7 (start of the 64-bit length field)'
+    if kl == sym.add_const(kz, -7):
+        chk.ok(R, inst, src)
+    else:
+        chk.violation(R, inst, src, 'kl = %s' % sym.show(kl), key='%s kl' % R)
+    # the formula itself: round_up(kr + len + po, bs) - 1 - kr
+    want = None
+    for k, v in kz[1]:
+        if isinstance(k, tuple) and k[0] == 'op' and k[1] == 'and' and v == 1:
+            want = k
+    inst = 'br_hmac_outCT: kz = ((kr + len + po + bs - 1) & ~(bs - 1)) - 1 - kr'
+    okk = False
+    if want is not None and kz[2] == -1 and dict(kz[1]).get(('var', 'kr')) == -1 and len(kz[1]) == 2:
+        kids = want[2:]
+        summ = S.aff({('var', 'kr'): 1, ('var', 'len'): 1, ('var', 'po'): 1, ('var', 'bs'): 1}, -1)
+        mask = S.atom(('op', 'xor') + tuple(sorted((S.aff({('var', 'bs'): 1}, -1), S.aff({}, -1)), key=repr)))
+        mask2 = S.atom(('op', 'xor') + tuple(sorted((S.aff({('var', 'bs'): 1}, -1), S.aff({}, 0xFFFFFFFF)), key=repr)))
+        okk = summ in kids and (mask in kids or mask2 in kids)
+    if okk:
+        chk.ok(R, inst, src)
+    else:
+        chk.violation(R, inst, src, 'kz = %s' % sym.show(kz), key='%s kz' % R)
+    # po
+    po_defs = [i for b in F.blocks for i in b['insts'] if i['op'] == 'dbgvalue' and i['var'] == 'po']
+    vals = set()
+    for d in po_defs:
+        o = d['ops'][0]
+        if o['k'] == 'c':
+            vals.add(o['v'])
+        elif o['k'] == 'i':
+            cs = fold._const_set(F, o)
+            if cs:
+                vals |= cs
+            else:
+                t = S.sym(o, top=True)
+                if t[0] == 'aff' and not t[1]:
+                    vals.add(t[2])
+    # dbg.value of constants is not recorded by irdump: recover from the phi feeding kz
+    for i in F.insts.values():
+        if i['op'] == 'phi' and S.names.get(('i', i['id'])) == 'po':
+            for x in i['ops']:
+                t = S.sym(x, top=True)
+                if t[0] == 'aff' and not t[1]:
+                    vals.add(t[2])
+    inst = 'br_hmac_outCT: po is 9 (64-bit length) or 17 (128-bit length)'
+    if vals == {9, 17}:
+        chk.ok(R, inst, src)
+    else:
+        chk.violation(R, inst, src, 'po takes the values %s' % sorted(vals), key='%s po' % R)
+
+
 def run(tier):
     chk = report.Check('C13', tier,
                        'Constant tables and class descriptors of the hash functions compared with values generated from the standards '
@@ -283,5 +356,6 @@ def run(tier):
             chk.violation(R, inst, src, 'slots: %s' % slots, key='%s %s slots' % (R, h))
     prf_sites(chk)
     tls10_prf_shape(chk)
+    hmac_ct_window(chk)
     chk.floor('tables', sum(1 for o in chk.obls if o['rule'] == 'hash-constants'), 15)
     return chk.finish()
